@@ -21,6 +21,20 @@ Cols(cs) == FlattenSeq([k \in 1..Len(cs) |-> CellCols(cs[k])])
 CellsWidth(cs) == SumSeq([k \in 1..Len(cs) |-> W(cs[k][1])])
 ZeroCells(cs) == SelectSeq(cs, LAMBDA c : W(c[1]) = 0)
 
+\* Which zero-width characters a column slice a..b-1 of the run list f holds.  A zero-width character displays in the
+\* column of the character before it, so one sitting at column position p (the number of columns before it) belongs
+\* to columns a..b-1 when a < p < b; at p = b it rides on the last character inside (kept or not: either reading is
+\* accepted), at p = a it belongs to the column before the slice - accepted only where there is no such column
+\* (a = 0) or where it opens a run - nothing but zero-width characters before it in its run - (a run covered whole
+\* is taken whole); every other one must not appear.
+ZeroAnn(f) ==          \* <<cell, position, opens its run>> of every zero-width character, in order
+  LET flat == FlattenSeq([k \in 1..Len(f) |-> [j \in 1..Len(f[k][1]) |-> <<f[k][1][j], f[k][2], \A i \in 1..j - 1 : W(f[k][1][i]) = 0>>]])
+      pos(n) == FoldLeft(LAMBDA acc, q : acc + W(q[1]), 0, SubSeq(flat, 1, n - 1))
+      idx == SelectSeq([n \in 1..Len(flat) |-> n], LAMBDA n : W(flat[n][1]) = 0)
+  IN [q \in 1..Len(idx) |-> <<flat[idx[q]][1], flat[idx[q]][2], pos(idx[q]), flat[idx[q]][3]>>]
+ZeroMust(f, a, b) == SelectSeq(ZeroAnn(f), LAMBDA z : a < z[3] /\ z[3] < b /\ ~z[4])     \* (one that opens a run: either reading)
+ZeroMay(f, a, b) == SelectSeq(ZeroAnn(f), LAMBDA z : (a < z[3] /\ z[3] <= b) \/ (z[3] = a /\ (a = 0 \/ z[4]) /\ a <= b))
+
 AbsWidth(cs) == CellsWidth(cs)
 AbsWidthAtOffset(cs, n) == CellsWidth(Take(cs, n))
 
